@@ -13,7 +13,7 @@ use vl_model::wire::*;
 
 use crate::c01::style_of;
 
-pub const RULE: &str = "byte streams built from request sequences over the extended alphabet (C01's 72 symbols \
+pub const RULE: &str = "byte streams built from request sequences over the extended alphabet (C01's 76 symbols \
 plus Big messages of 100 B / 8 KiB-1 / 8 KiB / 8 KiB+1 / 24 KiB and Upgrade followed by arbitrary payload bytes \
 incl. NUL and > 8 KiB) x segmentations: every single cut point (streams <= 2 KiB exhaustively; for larger ones \
 every cut within 3 bytes of a message boundary or of a multiple of 8192 plus 200 spread cuts), every pair of cut \
